@@ -479,6 +479,15 @@ func (a *idAnalysis) when(v ssa.Value, pol bool, env map[*ssa.Parameter]ssa.Valu
 						}
 					}
 				}
+				// the printed form says everything at once: `t.String() == "ID!"` is the named type
+				// ID, non-null (and not a list of it)
+				if s == "ID!" {
+					if c, ok := p[0].(*ssa.Call); ok && !c.Call.IsInvoke() && len(c.Call.Args) == 1 && strings.HasSuffix(calleeName(&c.Call), "gqlparser/v2/ast.Type).String") {
+						if subj := a.canonType(c.Call.Args[0]); subj != nil {
+							return idFacts{{"tname", subj}: true, {"nonnull", subj}: true}
+						}
+					}
+				}
 			}
 			if isIntConst(p[1], 0) {
 				if c, ok := p[0].(*ssa.Call); ok {
